@@ -171,10 +171,24 @@ def run(tier, seed):
         by_module[mod] = (d, c)
         if len(m["samples"]) < 8 and m["evaluations"] % 17 == 1:
             m["samples"].append({"document": d.name, "configuration": c, "label": d.label, "generated_bytes": size})
-    bad, err = check_modules(base, modules)
+    # documents of constructs with a recorded compile failure are type-checked in a crate of their
+    # own: the big crate then compiles in one pass (a no-op when nothing changed) instead of being
+    # re-checked once per round of dropped modules
+    known = vlib.load_known()
+    texts = [str(f.get("signature", "")) + str(f.get("signature_regex", "")) for f in known.get("findings", [])
+             if f.get("status", "open") == "open" and "C14" in str(f.get("property", ""))]
+    suspect = lambda mod: any(by_module[mod][0].label in t for t in texts)
+    bad, err = check_modules(base, [(m_, p) for m_, p in modules if not suspect(m_)])
     if err:
         print(err)
         die("C14: the check crate fails and no generated module is named by the diagnostics")
+    side = [(m_, p) for m_, p in modules if suspect(m_)]
+    if side:
+        bad2, err = check_modules(os.path.join(base, "side"), side)
+        if err:
+            print(err)
+            die("C14: the side check crate fails and no generated module is named by the diagnostics")
+        bad.update(bad2)
     m["evaluations"] += len(modules)
     for mod, errs in bad.items():
         d, c = by_module[mod]
